@@ -200,6 +200,9 @@ impl Prop for C19 {
         if rng.chance(1, 40) {
             c.layout.padding_kb = *rng.pick(&[9u8, 20, 33]);
         }
+        if rng.chance(1, 25) {
+            c.layout.align = Some(crate::model::align::Align { line: rng.below(400) as u16, boundary: *rng.pick(&[0u8, 0, 0, 1, 2, 3]), variant: rng.below(3) as u8 });
+        }
         let len = c.model.render(&c.layout, None).text.len() as u64;
         c.entry = if rng.chance(1, 4) { Entry::Reader } else { Entry::File };
         c.via_bytes = c.entry == Entry::File && rng.chance(1, 4);
@@ -213,7 +216,7 @@ impl Prop for C19 {
                 _ => Chunk::Rand { max: 1 + rng.below(100) as u32, seed: rng.next() },
             };
         }
-        if c.layout.padding_kb > 0 {
+        if c.layout.padding_kb > 0 || c.layout.align.is_some() {
             if let Chunk::One = c.chunk_r {
                 c.chunk_r = Chunk::Rand { max: 4096, seed: rng.next() };
             }
@@ -529,7 +532,7 @@ impl Prop for C19 {
     }
 
     fn rule(&self) -> String {
-        "one run = (abstract QP with <=5 variables and <=4 constraints for a random type code from {L,D,C,Q}x{C,B,M,I,G}x{N,B,L,D,C,Q}: lower-triangle entries incl. diagonal, default and non-default b0, constant, infinity value with bounds at/above/below it, two-sided/one-sided sides, names, starting points; layout: trailing text, comment and blank lines, tab/blank separators, number styles, CRLF, trailing lines, word case; entry: qplib::load_file / load_file_bytes (+ decode) on the simulated disk or QplibFile::from_reader on a simulated stream; schedule: chunking; faults: EINTR, short reads, EIO at byte k / call j, open failure; truncation at byte k; one-token corruption of a type-code letter, a count or a number; an entry count replaced by one far beyond the file: 10^9, 10^12, 2^62, 2^64-1; a 1-based index replaced by 0). Enumerated part: truncation at every byte of N files; every one-token corruption (each type-code letter, count, number; each entry count replaced by each of four counts beyond the file; each 1-based index replaced by 0) of M files. distinct = distinct event-log hash; every run is non-trivial (>=1 variable)".into()
+        "one run = (abstract QP with <=5 variables and <=4 constraints for a random type code from {L,D,C,Q}x{C,B,M,I,G}x{N,B,L,D,C,Q}: lower-triangle entries incl. diagonal, default and non-default b0, constant, infinity value with bounds at/above/below it, two-sided/one-sided sides, names, starting points; layout: trailing text, comment and blank lines, a line ending exactly at an 8/16/32/64 KiB boundary or a text of exactly that length, tab/blank separators, number styles, CRLF, trailing lines, word case; entry: qplib::load_file / load_file_bytes (+ decode) on the simulated disk or QplibFile::from_reader on a simulated stream; schedule: chunking; faults: EINTR, short reads, EIO at byte k / call j, open failure; truncation at byte k; one-token corruption of a type-code letter, a count or a number; an entry count replaced by one far beyond the file: 10^9, 10^12, 2^62, 2^64-1; a 1-based index replaced by 0). Enumerated part: truncation at every byte of N files; every one-token corruption (each type-code letter, count, number; each entry count replaced by each of four counts beyond the file; each 1-based index replaced by 0) of M files. distinct = distinct event-log hash; every run is non-trivial (>=1 variable)".into()
     }
     fn assumptions(&self) -> Vec<String> {
         vec![
